@@ -274,6 +274,16 @@ impl Engine for C16 {
             "oligo" => {
                 let b = read(&out_path);
                 out.note(&b);
+                // the mapped writer pre-sizes its file: bytes nobody wrote are NUL filler,
+                // a placeholder standing where data should be (or rows without a record)
+                if let Some(at) = b.iter().position(|&c| c == 0) {
+                    out.fail("placeholder", format!("output holds never-written NUL bytes from offset {at} of {} ({} lines for {n} records); {shape}", b.len(), rows_of(&b)));
+                    return out;
+                }
+                if !b.is_empty() && b.last() != Some(&b'\n') {
+                    out.fail("placeholder", format!("output does not end with a complete row ({} bytes); {shape}", b.len()));
+                    return out;
+                }
                 let hdr = if case.p_bool("header") { 1 } else { 0 };
                 let rows = rows_of(&b);
                 // with 0 records and no header the mapped writer may refuse a
